@@ -44,11 +44,7 @@ impl<D: StorageData> VecValue<D> for DbId {
 
 impl DbId {
     pub fn as_index(&self) -> u64 {
-        if self.0 < 0 {
-            (-self.0) as u64
-        } else {
-            self.0 as u64
-        }
+        self.0.unsigned_abs()
     }
 }
 
